@@ -61,6 +61,37 @@ theorem parse_print (s b : Bytes) (h : oidFromStr s = .ok b) :
   obtain ⟨a0, a1, rest, hp, h0, h1, hr, hd⟩ := oidFromStr_sound s b h
   exact ⟨_, hp, oidToStr_der a0 a1 rest h0 h1 hr b hd⟩
 
+/-- **C08.no_alias**: two accepted texts that are transmitted as the same octets denote the same
+arcs — the text-to-wire map identifies nothing but spellings (`+`, leading zeros) of one OID. -/
+theorem no_alias (s1 s2 b : Bytes) (h1 : oidFromStr s1 = .ok b) (h2 : oidFromStr s2 = .ok b) :
+    parseArcs (splitDots s1) = parseArcs (splitDots s2) := by
+  obtain ⟨a0, a1, r, hp, ha0, ha1, hr, hd⟩ := oidFromStr_sound s1 b h1
+  obtain ⟨c0, c1, q, hq, hc0, hc1, hqr, hd'⟩ := oidFromStr_sound s2 b h2
+  have e1 := oidToStr_der a0 a1 r ha0 ha1 hr b hd
+  have e2 := oidToStr_der c0 c1 q hc0 hc1 hqr b hd'
+  rw [e1] at e2
+  have ed : dotted (a0 :: a1 :: r) = dotted (c0 :: c1 :: q) := Outcome.ok.inj e2
+  have em := congrArg splitDots ed
+  rw [splitDots_dotted _ (by simp), splitDots_dotted _ (by simp)] at em
+  have b1 : ∀ a ∈ a0 :: a1 :: r, a < 2 ^ 32 := by
+    intro a ha
+    simp only [List.mem_cons] at ha
+    rcases ha with rfl | rfl | ha
+    · omega
+    · omega
+    · exact hr a ha
+  have b2 : ∀ a ∈ c0 :: c1 :: q, a < 2 ^ 32 := by
+    intro a ha
+    simp only [List.mem_cons] at ha
+    rcases ha with rfl | rfl | ha
+    · omega
+    · omega
+    · exact hqr a ha
+  have p1 := parseArcs_digits _ b1
+  have p2 := parseArcs_digits _ b2
+  rw [em, p2] at p1
+  rw [hp, hq]; exact p1.symm
+
 /-! Non-vacuity -/
 example : derOid [1, 3] = some [43] := by decide
 example : (1 : Nat) ≤ 2 ∧ (3 : Nat) ≤ 39 ∧ ∀ a ∈ [6, 1, 4294967295], a < 2 ^ 32 := by decide
